@@ -196,6 +196,10 @@ def make_layout(rng, nvol=None, home_mode=None, xdg=None, uid=None, trash_states
             steps.append(['d', t, 0o1777])
         elif ts == 'nonsticky':
             steps.append(['d', t, 0o777])
+        elif ts == 'nonsticky_sgid':
+            steps.append(['d', t, 0o2775])
+        elif ts == 'nonsticky_suid':
+            steps.append(['d', t, 0o4755])
         elif ts in ('link_sticky', 'link_nonsticky'):
             real = v + '/.realTrash'
             steps.append(['d', real, 0o1777 if ts == 'link_sticky' else 0o777])
